@@ -49,7 +49,7 @@ if os.path.exists(_meta):
     PARTIAL = json.load(open(_meta)).get('partial', [])
 
 INTERFACES = ['assign_elem', 'assign_array', 'assign_series', 'assign_frame', 'assign_bloc', 'assign_apply',
-              'drop', 'mask', 'astype', 'relabel', 'rename', 'insert', 's_assign', 's_drop', 's_mask', 's_relabel']
+              'drop', 'mask', 'astype', 'relabel', 'rename', 'insert', 's_assign', 's_drop', 's_mask', 's_relabel', 's_insert']
 VALUES = ['i:7', 'f:1.5', 's:"zz"', 'b:1', 'N', 'i:-3', 's:"abcdefgh"']
 
 
@@ -779,6 +779,23 @@ def run_iface(ctx, c, f, ref, rpos, cpos):
         elif iface == 's_mask':
             res = getattr(s.mask, route)[prk]
             what = cmp_series(res, ref.index, ['b:1' if i in rp else 'b:0' for i in range(n)], tok(res.name), dtype='b1')
+        elif iface == 's_insert':
+            if n == 0:
+                raise Skip()
+            # a Series of ANOTHER kind of values goes in before / after a label (or a position counted from the end): every value,
+            # old and new, must read back as it was (no text / number / Boolean is turned into another)
+            pools = [[41, 42, 43], ['p', 'qq', 'r'], [True, False, True], [1.5, 2.5, -0.5]]
+            vals = pools[(rng_r // 5) % 4][: 1 + (rng_r // 20) % 3]
+            ins = sf.Series(vals, index=[f'__n{i}__' for i in range(len(vals))])
+            p = (rng_r // 60) % n
+            lab = untok(ref.index[p]) if (rng_r // 3) % 2 else sf.ILoc[p - n]
+            before_ = (rng_r // 7) % 2 == 0
+            res = s.insert_before(lab, ins) if before_ else s.insert_after(lab, ins)
+            at = p if before_ else p + 1
+            exp_i = ref.index[:at] + [tok(x) for x in ins.index] + ref.index[at:]
+            exp_v = col[:at] + [tok(v) for v in vals] + col[at:]
+            ctx.count('series_insert')
+            what = cmp_series(res, exp_i, exp_v, tok(s.name))
         elif iface == 's_relabel':
             res = s.relabel(lambda x: (x, 1)).rename('zz')
             what = cmp_series(res, [tok((untok(t), 1)) for t in ref.index], col, tok('zz'), dtype=dtype_tok(s.dtype))
